@@ -517,7 +517,7 @@ class SymFloat(_real_float):
             out = _np.empty(other.shape, dtype=object)
             for idx in _np.ndindex(other.shape):
                 out[idx] = self._bin(other[idx], fn, refl)
-            return out
+            return out.view(type(other)) if type(other) is not _np.ndarray else out
         if _is_inf(other):
             return NotImplemented
         o = lift(other)
